@@ -493,7 +493,6 @@ def make_cases(ctx, laspy_side):
         cases.append(make_case(rng, v, f, 256 if f in (0, 6, 10) else 35, rng.choice([1, 2, 3, 5]), laspy_side, idx)); idx += 1
     for dt in range(0, 31):                 # every extra-bytes data type at least once (type 0 = undocumented bytes)
         v, f = rng.choice(pairs)
-        c = make_case(rng, v, f, rng.choice([0, 1, 2, 9]), 0, laspy_side, idx); idx += 1
         extra = rand_extra_dims(rng, 1, laspy_side)
         extra[0]["data_type"] = dt
         extra[0]["nbytes"] = (rng.choice([4, 7, 24]) if dt == 0 else 0)
@@ -503,7 +502,7 @@ def make_cases(ctx, laspy_side):
         elif extra[0]["scaled"]:
             extra[0]["scales"] = [lasio.f64bits(rng.choice(EXACT_SCALES)) for _ in range(cnt)]
             extra[0]["offsets"] = [lasio.f64bits(rng.choice(EXACT_OFFSETS)) for _ in range(cnt)]
-        c2 = make_case(rng, v, f, c["n"], 0, laspy_side, c["id"])
+        c2 = make_case(rng, v, f, rng.choice([0, 1, 2, 9]), 0, laspy_side, idx); idx += 1
         c2["extra_dims"] = extra
         ebs = eb_pairs(extra)
         std = len(py_leaves(f, []))
@@ -595,6 +594,11 @@ def laspy_write(case):
                 las[name] = np_column(*parts[0])
     if case["evlrs"]:
         las.evlrs = VLRList([laspy.VLR(user_id=u, record_id=r, description=ds, record_data=bytes.fromhex(p)) for u, r, ds, p in case["evlrs"]])
+    # statistics are laspy's own computation (C03); update_header() also clears the waveform pointer of a 1.4 header, so the
+    # attribute is assigned again afterwards: what is written is what the header holds at write time
+    las.update_header()
+    if int(case["version"][2]) >= 3:
+        las.header.start_of_waveform_data_packet_record = hd["start_of_waveform"]
     bio = io.BytesIO()
     las.write(bio)
     own = {"maxs": [lasio.f64bits(x) for x in las.header.maxs], "mins": [lasio.f64bits(x) for x in las.header.mins],
@@ -647,7 +651,11 @@ def laspy_present(data, case):
             dim = list(las.point_format.extra_dimensions)[i]
             view = las[dim.name]
             raw = view.array if dim.scales is not None else np.array(view)
-            raw = np.asarray(raw).reshape(n, -1)
+            raw = np.asarray(raw)
+            if n == 0:
+                cols.append([])
+                continue
+            raw = raw.reshape(n, -1)
             if k >= raw.shape[1] or raw.dtype.itemsize != int(kind[1:]):
                 cols.append(None)
                 continue
@@ -724,7 +732,10 @@ def spec_decode_files(ref, files):
                     idx.append(i)
     E = {}
     for i, o in zip(idx, ref.batch(reqs)):
-        E.setdefault(i, []).append(dict(o[0]))
+        if is_err(o):
+            res[i]["error"] = f"extra-bytes descriptor: {o[1]}"
+        else:
+            E.setdefault(i, []).append(dict(o[0]))
     live = [i for i in live if "error" not in res[i]]
     reqs, idx = [], []
     for i in live:
